@@ -1,6 +1,6 @@
 KINDS = ["vec_znx_add", "vec_znx_rotate", "vec_znx_automorphism", "vec_znx_normalize_base2k", "vec_znx_dft", "vec_znx_dft+idft", "svp_apply_dft",
          "vmp_apply_dft", "znx_small_single_product", "vec_znx_big_normalize_base2k", "ntt120:vec_znx_dft+idft", "reim_fft", "reim_ifft",
-         "reim_fftvec_mul", "reim_fftvec_addmul", "reim_from_znx64", "reim_to_znx64", "cplx_fft", "q120_ntt_bb_avx2", "q120_vec_mat1col_product_bbb",
+         "reim_fftvec_mul", "reim_fftvec_addmul", "reim_from_znx64", "reim_to_znx64", "cplx_fft", "q120_ntt_bb_avx2", "q120_vec_mat1col_products(baa,bbb,bbc)",
          "reim4_from_cplx", "new/use/delete:private_FFT64_module", "new/use/delete:private_NTT120_module", "new/use/free:private_fft_precomp", "reim_fft_simple", "reim_fftvec_mul_simple", "reim_to_znx64_simple", "cplx_fft_simple", "reim4_fftvec_mul_simple",
          "cplx_from_znx32_simple", "reim_ifft_simple", "cplx_fftvec_mul_simple", "cplx_to_tnx32_simple", "reim_from_znx64_simple"]
 
